@@ -74,6 +74,19 @@ Match(e, o, mode) ==
                          ELSE SigMatchRinex(SigClass(e.g, e.id), o)
        [] OTHER -> FALSE
 
+\* The ORDER in which the object lists its public attributes is fixed by no listed property
+\* (C03: "one public attribute per field occurrence, named ..."): an observed list that holds
+\* exactly the specification's names in another order is compared name by name.
+NamesInOrder(list) == Len(list) = Len(attrs) /\ \A i \in 1 .. Len(list) : list[i].n = attrs[i].n
+SameNames(list) == Len(list) = Len(attrs) /\ {list[i].n : i \in 1 .. Len(list)} = {attrs[i].n : i \in 1 .. Len(attrs)}
+Norm(list) ==
+  IF NamesInOrder(list) \/ ~NamesDistinct \/ ~SameNames(list) THEN list
+  ELSE [i \in 1 .. Len(attrs) |->
+          \* (reorderings are local as a rule: look near position i first)
+          LET W == {j \in (i - 3) .. (i + 3) : j >= 1 /\ j <= Len(list) /\ list[j].n = attrs[i].n}
+          IN  IF W # {} THEN list[CHOOSE j \in W : TRUE]
+              ELSE list[CHOOSE j \in 1 .. Len(list) : list[j].n = attrs[i].n]]
+
 \* within one message a signal has one label
 SelfConsistent(obs) ==
   \A i, j \in 1 .. Len(attrs) :
@@ -119,8 +132,9 @@ Verdict ==
        ELSE IF r.ident # ident THEN <<"reject", "Identity", <<ident, r.ident>> >>
        ELSE IF ~NamesDistinct THEN <<"reject", "NamesDistinct", << >> >>
        ELSE IF ~r.scaled THEN <<"reject", "ScaleMismatch", <<r.scalebad>> >>
-       ELSE IF ModeOK(r.attrs, r.lab) THEN <<"accept", IF st = "stub" THEN "Stub" ELSE "Message", << >> >>
-       ELSE <<"reject", "Attributes", Detail(r.attrs, r.lab)>>
+       ELSE LET oa == Norm(r.attrs) IN
+            IF ModeOK(oa, r.lab) THEN <<"accept", IF st = "stub" THEN "Stub" ELSE "Message", << >> >>
+            ELSE <<"reject", "Attributes", Detail(oa, r.lab)>>
 
 
 ---------------------------------------------------------------------------
@@ -128,7 +142,7 @@ Verdict ==
 \* each op record has the uniform shape
 \*  [op, name, raised, lib, none, flag, bytes, ident, attrs, sd, meta, sats, cells, layers, names]
 ValMatch(e, o, mode) == Match(e, [o EXCEPT !.n = e.n], mode)
-RMode == IF Rec.lab = "either" THEN ModeUsed(Rec.attrs, Rec.lab) ELSE Rec.lab
+RMode == IF Rec.lab = "either" THEN ModeUsed(Norm(Rec.attrs), Rec.lab) ELSE Rec.lab
 
 EntryOK(grp, i, ent) ==
   LET E == EntryOf(grp, i) IN
@@ -169,15 +183,16 @@ NameOK(e, x) ==
     /\ (e.ix # << >> => x.idx = e.ix /\ x.tuple = (Len(e.ix) > 1) /\ x.base = e.b)
 
 FirstBadName(o) ==
-  LET n == IF Len(o.names) < Len(attrs) THEN Len(o.names) ELSE Len(attrs)
-      B == {i \in 1 .. n : ~NameOK(attrs[i], o.names[i])}
+  LET nm == Norm(o.names)
+      n == IF Len(nm) < Len(attrs) THEN Len(nm) ELSE Len(attrs)
+      B == {i \in 1 .. n : ~NameOK(attrs[i], nm[i])}
   IN  IF B = {} THEN 0 ELSE CHOOSE i \in B : \A j \in B : i <= j
 
 \* snapshot of a live message equals the specification's state
 SnapOK(o) ==
   /\ o.bytes = p
   /\ o.ident = ident
-  /\ ModeOK(o.attrs, Rec.lab)
+  /\ ModeOK(Norm(o.attrs), Rec.lab)
 
 OpCheck(o) ==
   CASE o.op = "serialize" ->
@@ -234,7 +249,7 @@ OpCheck(o) ==
     [] o.op = "names" ->
          IF Len(o.names) # Len(attrs) THEN <<"Names", <<"count", Len(o.names), Len(attrs)>> >>
          ELSE LET i == FirstBadName(o) IN
-              IF i = 0 THEN << >> ELSE <<"Names", <<attrs[i].n, attrs[i].b, attrs[i].ix, o.names[i]>> >>
+              IF i = 0 THEN << >> ELSE <<"Names", <<attrs[i].n, attrs[i].b, attrs[i].ix, Norm(o.names)[i]>> >>
     [] OTHER -> <<"UnknownOp", <<o.op>> >>
 
 Op ==
@@ -253,11 +268,12 @@ OpsPending ==
 
 NewLabels ==
   LET r == Rec
-      m == ModeUsed(r.attrs, r.lab)
+      oa == Norm(r.attrs)
+      m == ModeUsed(oa, r.lab)
       S == {i \in 1 .. Len(attrs) : attrs[i].k = "sig"}
       K == {<<m, attrs[i].g, attrs[i].id>> : i \in S}
   IN  [k \in K \ DOMAIN learnt |->
-         LET i == CHOOSE i \in S : <<m, attrs[i].g, attrs[i].id>> = k IN r.attrs[i].t]
+         LET i == CHOOSE i \in S : <<m, attrs[i].g, attrs[i].id>> = k IN oa[i].t]
 
 Judge ==
   /\ rid <= Len(Records)
